@@ -152,6 +152,10 @@ func genC14() {
 	vmu := parse("amd/timing/cu/vectormemoryunit.go")
 	emu := parse("amd/emu/computeunit.go")
 	cub := parse("amd/timing/cu/cubuilder.go")
+	arbF := parse("amd/timing/cu/issuearbiter.go")
+	decF := parse("amd/timing/cu/decodeunit.go")
+	brF := parse("amd/timing/cu/branchunit.go")
+	instF := parse("amd/insts/inst.go")
 	mi3 := parse("amd/samples/runner/timingconfig/mi300a/builder.go")
 	sha := parse("amd/samples/runner/timingconfig/shaderarray/builder.go")
 	pipe := c05Parse(filepath.Join(c05GoList(root, "{{.Dir}}", "github.com/sarchlab/akita/v4/pipelining"), "pipeline.go"), "akita/pipelining/pipeline.go")
@@ -395,6 +399,41 @@ func genC14() {
 	})
 	fmt.Fprintf(&b, "/-- `VectorMemoryUnit.Run`: the stages, in order -/\ndef vmuRunOrder : List String := %s\n", c14StrList(runCalls))
 
+	// who may issue
+	b.WriteString("\n")
+	exeNames, _ := iotaConsts(instF.f, "ExeUnitVALU")
+	fmt.Fprintf(&b, "/-- `insts.ExeUnit`: the constants in `iota` order -/\ndef exeUnitNames : List String := %s\n", c14StrList(exeNames))
+	var dcap []int64
+	ast.Inspect(decF.fn("DecodeUnit.CanAcceptWave").Body, func(n ast.Node) bool {
+		if be, ok := n.(*ast.BinaryExpr); ok && be.Op == token.LSS && c05Text(be.X) == "len(du.toDecode)" {
+			if v, ok := constInt(be.Y, nil); ok {
+				dcap = append(dcap, v)
+			}
+		}
+		return true
+	})
+	if len(dcap) != 1 {
+		fatalf("c14: DecodeUnit.CanAcceptWave: expected `len(du.toDecode) < N`, found %d such tests", len(dcap))
+	}
+	fmt.Fprintf(&b, "/-- `DecodeUnit.CanAcceptWave`: `len(du.toDecode) < N` -/\ndef decodeUnitCap : Nat := %d\n", dcap[0])
+	if t := c05Text(brF.fn("BranchUnit.CanAcceptWave").Body); t != "{ return u.toRead == nil }" {
+		fatalf("c14: BranchUnit.CanAcceptWave is `%s` (expected one slot: u.toRead == nil)", t)
+	}
+	b.WriteString("/-- `BranchUnit.CanAcceptWave`: `u.toRead == nil`, one wavefront -/\ndef branchUnitCap : Nat := 1\n")
+	var maskLen []int64
+	ast.Inspect(arbF.fn("IssueArbiter.Arbitrate").Body, func(n ast.Node) bool {
+		if call, ok := n.(*ast.CallExpr); ok && c05Text(call.Fun) == "make" && len(call.Args) == 2 && c05Text(call.Args[0]) == "[]bool" {
+			if v, ok := constInt(call.Args[1], nil); ok {
+				maskLen = append(maskLen, v)
+			}
+		}
+		return true
+	})
+	if len(maskLen) != 1 {
+		fatalf("c14: IssueArbiter.Arbitrate: expected one `make([]bool, N)` type mask, found %d", len(maskLen))
+	}
+	fmt.Fprintf(&b, "/-- `IssueArbiter.Arbitrate`: length of the per-SIMD execution-unit type mask -/\ndef typeMaskLen : Nat := %d\n", maskLen[0])
+
 	// hashes
 	type hf struct {
 		c     *c05File
@@ -420,6 +459,10 @@ func genC14() {
 		{vmu, []string{"VectorMemoryUnit.Run", "VectorMemoryUnit.instToTransaction", "VectorMemoryUnit.insertTransactionToPipeline",
 			"VectorMemoryUnit.computeCoalescingPenalty", "VectorMemoryUnit.executeFlatLoad", "VectorMemoryUnit.executeFlatStore",
 			"VectorMemoryUnit.sendRequest", "VectorMemoryUnit.Flush"}},
+		{arbF, []string{"IssueArbiter.Arbitrate", "IssueArbiter.isAllWfPoolsEmpty"}},
+		{sch, []string{"SchedulerImpl.DoIssue", "SchedulerImpl.getUnitToIssueTo"}},
+		{decF, []string{"DecodeUnit.CanAcceptWave", "DecodeUnit.AcceptWave"}},
+		{brF, []string{"BranchUnit.CanAcceptWave", "BranchUnit.AcceptWave"}},
 		{pipe, []string{"pipelineImpl.Clear", "pipelineImpl.Tick", "pipelineImpl.tryMoveToPostPipelineBuffer", "pipelineImpl.tryMoveToNextStage",
 			"pipelineImpl.CanAccept", "pipelineImpl.Accept"}},
 		{emu, []string{"ComputeUnit.runWG", "ComputeUnit.isAllWfCompleted", "ComputeUnit.resolveBarrier"}},
